@@ -114,6 +114,8 @@ def build_raw(g, names):
             return pickle.dumps(_Exit())
         return pickle.dumps(_Evil(g['exc']))
     v = build_value(g['v'], names)
+    if t == 'value':
+        return v            # a channel entry that is neither bytes nor text nor a message: handed to `_thread` as is
     if t == 'pickle':
         return pickle.dumps(v)
     if t == 'json':
@@ -325,6 +327,14 @@ def template(rng, method, ctx):
     return {'method': 'close_room', 'room': room, 'namespace': NS, 'host_id': 'hX'}
 
 
+# raw channel entries that are not bytes / text / dict messages (JSON-able specs, see build_value)
+VALUE_ENTRIES = [None, None, None, 0, '', {'$bytes': ''}, [], {}, False, 0.0, {'$tuple': []}]
+
+
+def value_label(v):
+    return 'None' if v is None else repr(build_value(v, None))
+
+
 REQUIRED = {'emit': ['event', 'data', 'namespace'], 'callback': ['sid', 'id', 'args', 'host_id'],
             'disconnect': ['sid'], 'enter_room': ['sid', 'namespace'], 'leave_room': ['sid', 'namespace'],
             'close_room': ['namespace']}
@@ -348,6 +358,10 @@ def gen_garbage(rng, ctx):
         return {'t': 'str', 'v': rng.choice(['hello', '', '{', 'null', '7'])}, True
     if x < 0.30:
         return {'raise': True}, True
+    if x < 0.35:
+        # `_listen()` yields a value of the wrong type: None, other falsy values that are not messages, odd objects
+        # (undecodable or falsy for `_thread`: skipped, the listener goes on)
+        return {'t': 'value', 'v': rng.choice(VALUE_ENTRIES)}, True
     method = rng.choice(VALID_TEMPLATES)
     d = template(rng, method, ctx)
     how = rng.choice(['pickle', 'pickle', 'pickle', 'dict', 'json'])
@@ -739,7 +753,7 @@ def inert_by_statement(case, i, item):
     if item['inert'] is not None:
         return item['inert']
     g = item['g']
-    if g['t'] in ('bytes', 'str', 'jsonstr', 'evil'):
+    if g['t'] in ('bytes', 'str', 'jsonstr', 'evil', 'value'):
         return True
     v = g['v']
     if not isinstance(v, dict) or 'method' not in v or '$tuple' in v:
@@ -2021,7 +2035,10 @@ E2E_INERT = [  # undecodable, falsy, or a container without 'method'
     {'t': 'bytes', 'hex': 'ff00fe'}, {'t': 'bytes', 'hex': '80'}, {'t': 'pickle', 'v': 0}, {'t': 'pickle', 'v': None},
     {'t': 'pickle', 'v': []}, {'t': 'pickle', 'v': {}}, {'t': 'pickle', 'v': {'a': 1}}, {'t': 'pickle', 'v': 'plain'},
     {'t': 'json', 'v': [1, 2]}, {'t': 'json', 'v': None}, {'t': 'evil', 'exc': 'SystemExit'},
-    {'t': 'evil', 'exc': 'CancelledError'}]
+    {'t': 'evil', 'exc': 'CancelledError'}] + [
+    # the message's 'data' is not bytes at all (the broker client hands on whatever it decoded): None and other
+    # falsy values of the wrong type
+    {'t': 'value', 'v': v} for v in [None, None, 0, '', {'$bytes': ''}, [], {}, False]]
 E2E_INNER = [  # dicts with a 'method' that fail (or do nothing) inside the per-message try
     {'t': 'pickle', 'v': {'method': 'nope', 'host_id': 'hX'}},
     {'t': 'pickle', 'v': {'method': 'emit', 'host_id': 'hX'}},
@@ -2319,6 +2336,19 @@ E2E_FIXED = [
         {'e': 'raw', 'class': 'outer', 'g': {'t': 'pickle', 'v': ['method', 1]}},
         {'e': 'raw', 'class': 'outer', 'g': {'t': 'pickle', 'v': True}},
         {'e': 'emit', 'ev': 'v1', 'data': 'x', 'room': None, 'skip': None, 'how': 'pickle'}]},
+    # messages whose 'data' is None / a falsy value of the wrong type, each followed by traffic
+    {'clients': ['c0', 'c1'], 'rooms': {'c0': 'r1', 'c1': None}, 'net_suspends': False, 'script': [
+        {'e': 'emit', 'ev': 'v1', 'data': 'x', 'room': None, 'skip': None, 'how': 'pickle'},
+        {'e': 'raw', 'class': 'inert', 'g': {'t': 'value', 'v': None}},
+        {'e': 'emit', 'ev': 'v2', 'data': 'x', 'room': {'r': 'r1'}, 'skip': None, 'how': 'pickle'},
+        {'e': 'raw', 'class': 'inert', 'g': {'t': 'value', 'v': 0}},
+        {'e': 'raw', 'class': 'inert', 'g': {'t': 'value', 'v': ''}},
+        {'e': 'enter', 'sid': 'c1', 'room': 'r1', 'how': 'json'},
+        {'e': 'raw', 'class': 'inert', 'g': {'t': 'value', 'v': {'$bytes': ''}}},
+        {'e': 'raw', 'class': 'inert', 'g': {'t': 'value', 'v': []}},
+        {'e': 'raw', 'class': 'inert', 'g': {'t': 'value', 'v': {}}},
+        {'e': 'raw', 'class': 'inert', 'g': {'t': 'value', 'v': False}},
+        {'e': 'emit', 'ev': 'v3', 'data': 5, 'room': {'r': 'r1'}, 'skip': None, 'how': 'pickle'}]},
 ]
 
 
@@ -2349,6 +2379,8 @@ def redis_e2e_part(ctx):
                 for ev in case['script']:
                     if ev['e'] in ('raw', 'drop', 'other'):
                         ctx.count('redis_e2e.entry.' + (ev['e'] if ev['e'] != 'raw' else 'garbage.' + ev['class']))
+                        if ev['e'] == 'raw' and ev['g']['t'] == 'value':
+                            ctx.count('redis_e2e.entry.garbage.value_entry.' + value_label(ev['g']['v']))
                         seen_fault = seen_fault or ev['e'] == 'drop' or ev.get('class') == 'outer'
                     else:
                         ctx.count('redis_e2e.entry.valid.' + ev['e'])
@@ -2413,6 +2445,8 @@ def run(ctx):
                 ctx.count('item.' + (it['k'] if it['k'] != 'op' else 'valid.' + it['op']['op']))
                 if it['k'] == 'raw':
                     ctx.count('garbage.' + it['g']['t'])
+                    if it['g']['t'] == 'value':
+                        ctx.count('garbage.value_entry.' + value_label(it['g']['v']))
             for f in case['faults'].values():
                 ctx.count('fault.' + f)
             good = True
